@@ -14,6 +14,7 @@ CONSTANTS G,           \* grammar: "G12" (NV variables), "G3" for_all, "G6" sub-
           NeedNot      \* TRUE: export only trees that contain a negation (C03)
 
 AllLeaves == CASE G = "G12" -> (IF NV = 1 THEN LeavesG1 ELSE LeavesG2(NV))
+               [] G = "G4"  -> LeavesG2(2)
                [] G = "G3"  -> LeavesG3
                [] G = "G6"  -> LeavesG6
                [] G = "G7i" -> LeavesG7("int")
@@ -34,6 +35,7 @@ Selections ==
         ELSE << Sel("set_of", <<V(1), V(2), V(3)>>), Sel("set_of", <<V(3), V(1)>>), Sel("entity", <<V(2)>>),
                 Sel("set_of", <<V(2), V(3), V(1)>>) >>)
     [] G = "G3" -> << [desc |-> "entity", sel |-> <<V(1)>>, flats |-> <<>>, bound |-> <<2>>] >>
+    [] G = "G4" -> [j \in 1..Len(Heads) |-> [desc |-> "entity", sel |-> <<>>, flats |-> <<>>, bound |-> <<>>, head |-> Heads[j]]]
     [] G = "G6" -> << Sel("set_of", <<V(1), V(2)>>), Sel("entity", <<V(1)>>), Sel("set_of", <<V(2), V(1)>>) >>
     [] G \in {"G7i", "G7o"} ->
        LET srcs == FlatSources(IF G = "G7i" THEN "int" ELSE "obj")
@@ -71,8 +73,11 @@ PushOuter(j, side) == /\ G = "G3" /\ done = <<>> /\ Len(stack) = 1 /\ Top.k = "f
 Finish(s) == /\ done = <<>> /\ Len(stack) = 1
              /\ (NeedNot => HasNot(Top))
              /\ (G = "G3" => HasForAll(Top))
-             /\ done' = <<[desc |-> Selections[s].desc, sel |-> Selections[s].sel, flats |-> Selections[s].flats,
-                           bound |-> Selections[s].bound, cond |-> Top]>>
+             /\ done' = <<IF G = "G4"
+                           THEN [desc |-> "entity", sel |-> <<>>, flats |-> <<>>, bound |-> <<>>, cond |-> Top,
+                                 head |-> Selections[s].head]
+                           ELSE [desc |-> Selections[s].desc, sel |-> Selections[s].sel, flats |-> Selections[s].flats,
+                                 bound |-> Selections[s].bound, cond |-> Top]>>
              /\ stack' = <<>>
 
 Next == \/ \E j \in 1..Len(Leaves) : PushLeaf(j) /\ (G = "G3" => ~(stack # <<>> /\ HasForAll(Top)))
